@@ -87,10 +87,10 @@ template <typename C>
 static std::string text_of(C const& c) { std::ostringstream o; c.serialize(o); return o.str(); }
 
 // snapshots the checkpoint file after every invocation of the built-in callback
-template <typename C>
+template <typename C, typename Inner = hep::callback<C>>
 struct snap_cb
 {
-    hep::callback<C> inner;
+    Inner inner;
     std::vector<std::string>* snaps;
     bool operator()(C const& c)
     {
@@ -106,6 +106,7 @@ template <typename T, typename E>
 struct kit<T, E, hep::plain_chkpt_with_rng<E, T>>
 {
     using C = hep::plain_chkpt_with_rng<E, T>;
+    using Base = hep::plain_chkpt<T>;
     static C fresh(int) { E g; g.seed(7); return hep::make_plain_chkpt<T, E>(g); }
     template <typename CB>
     static C run(C const& c, std::vector<sz> const& calls, int variant, CB cb)
@@ -121,6 +122,7 @@ template <typename T, typename E>
 struct kit<T, E, hep::vegas_chkpt_with_rng<E, T>>
 {
     using C = hep::vegas_chkpt_with_rng<E, T>;
+    using Base = hep::vegas_chkpt<T>;
     static C fresh(int cfg)
     {
         E g; g.seed(7);
@@ -143,6 +145,7 @@ template <typename T, typename E>
 struct kit<T, E, hep::multi_channel_chkpt_with_rng<E, T>>
 {
     using C = hep::multi_channel_chkpt_with_rng<E, T>;
+    using Base = hep::multi_channel_chkpt<T>;
     static C fresh(int cfg)
     {
         E g; g.seed(7);
@@ -230,7 +233,9 @@ struct explorer
     {
         if (k == stop) { r.distinct(vf::hash_str(base + path)); return; }
         sz const remaining = g_calls.size() - k;
-        for (char mode : {'m', 't', 'f'})
+        // 'b' is 'f' with the callback spelled for the checkpoint's base type (hep::callback<hep::vegas_chkpt<T>>, as the
+        // library's own tests and examples do)
+        for (char mode : {'m', 't', 'f', 'b'})
         {
             for (sz j = 1; j <= remaining; ++j)
             {
@@ -263,8 +268,18 @@ struct explorer
                     // the file the built-in callback writes after each iteration is what a killed run leaves behind
                     ::unlink(g_file.c_str());
                     std::vector<std::string> snaps;
-                    snap_cb<C> cb{CB(hep::callback_mode::silent_and_write_chkpt, g_file, target), &snaps};
-                    C ret = K::run(c, calls, variant, cb);
+                    C ret = c;
+                    if (mode == 'f')
+                    {
+                        snap_cb<C> cb{CB(hep::callback_mode::silent_and_write_chkpt, g_file, target), &snaps};
+                        ret = K::run(c, calls, variant, cb);
+                    }
+                    else
+                    {
+                        using BaseCB = hep::callback<typename K::Base>;
+                        snap_cb<C, BaseCB> cb{BaseCB(hep::callback_mode::silent_and_write_chkpt, g_file, target), &snaps};
+                        ret = K::run(c, calls, variant, cb);
+                    }
                     if (snaps.size() != expect - k) { r.violate("callback-invocations", id, id + ": callback ran " + std::to_string(snaps.size()) + " times for " + std::to_string(expect - k) + " iterations"); continue; }
                     for (sz i = 0; i != snaps.size() && ok; ++i)
                     {
@@ -282,6 +297,9 @@ struct explorer
                 }
                 if (!check_state(next, expect, id, std::string("the checkpoint carried by '") + mode + "'")) continue;
                 if (r.wants_sample() && path.size() >= 4 && mode == 'f') r.sample(id);
+                // 'b' differs from 'f' only in how the callback is spelled: explore it as a leaf-extending carrier for the
+                // first two segments only, to keep the path count in check
+                if (mode == 'b' && path.size() >= 4) continue;
                 dfs(next, expect, path + seg);
             }
         }
